@@ -101,8 +101,9 @@ def main(repo, jobs=16, only=None):
         print(f"{r['prop']} {r['expect']} {r['name']:<58} {r['result']}{flag}")
         if flag:
             bad += 1
-            for l in r.get('detail') or []:
-                print('      ', l if isinstance(l, str) else l)
+            det = r.get('detail') or []
+            for l in ([det] if isinstance(det, str) else det):
+                print('      ', l)
     print(f'{len(res)} variants, {summarise(res)}, {wall:.1f}s')
     return 1 if bad else 0
 
